@@ -137,6 +137,10 @@ def canon_order(v):
         return [t, v[1], sorted(([k, canon_order(e)] for k, e in v[2]), key=lambda kv: kv[0])]
     if t == "torch":
         return [t, v[1], v[2], v[3]]
+    if t == "logger":
+        # loggers are process-global objects (logging.getLogger(name)): their level is shared
+        # state, and the property only requires the same kind of object back
+        return [t, v[1]]
     return v
 
 
@@ -344,6 +348,11 @@ class Gen:
             (lambda: ["tuple", self.sanitize_seq([self.value(depth - 1, True) for _ in range(rng.randint(0, 3))])], 2),
             (lambda: (lambda k: [k, self.sanitize_seq(gen_numeric_seq(rng, k)[1])])(rng.choice(["list", "tuple"])), 3),
             (lambda: ["set", self.set_items()], 2),
+            # wide item-by-item containers (element keys "0".."n-1" cross 9->10 and beyond)
+            (lambda: [rng.choice(["list", "tuple"]),
+                      [rng.choice([["scalar", S(f"s{i}")], ["scalar", S(i)], ["scalar", S(None)], ["path", f"p/{i}"]])
+                       for i in range(rng.choice([10, 11, 12, 21, 35]))] + [["scalar", S("end")]]], 0.7),
+            (lambda: ["set", [["scalar", S(f"m{i}")] for i in range(rng.choice([11, 12, 23]))]], 0.3),
             (lambda: ["dict", self.entries(depth - 1, True, rng.randint(0, 4))], 3),
             (lambda: ["obj", rng.choice(["SA", "SB", "SC"]), self.entries(depth - 1, False, rng.randint(0, 4))], 3),
         ]
